@@ -378,3 +378,132 @@ Section Chunkinfo.
   Definition chunkinfo_req (self : list N) (fwd_ok : bool) (m : option ci_req) : outcome :=
     run (_r <- from_read m E_ERR ;; guard fwd_ok E_ERR).
 End Chunkinfo.
+
+(** ===================================================================== *)
+(** * multicast  (pkg/multicast/kademlia.go, handshake.go, discover.go, group.go) *)
+
+Record find_group_req := mkFindGroup { fg_gid : list N; fg_limit : Z; fg_ttl : Z; fg_paths : list (list N) }.
+Record group_msg := mkGroupMsg { gm_gid : list N; gm_data : list N; gm_type : Z; gm_err : list N }.
+
+Definition wrap32 (z : Z) : Z := ((z + 2147483648) mod 4294967296 - 2147483648)%Z.
+
+(** [g.add(peer, true)] / [g.remove(peer, _)]: every branch starts with [pslice.Exists(peer)] on
+    the group's one-bin slices (base = the node's address) *)
+Definition group_touch (maxpo : N) (self peer : list N) : res unit :=
+  _b <- pslice_bin maxpo 1 self peer ;; Val tt.
+
+Fixpoint for_each {A} (f : A -> res unit) (l : list A) : res unit :=
+  match l with [] => Val tt | x :: r => f x ;;; for_each f r end.
+
+(** [HandshakeIncoming]: read GIDs, write own GIDs, [updatePeerGroupsJoin] *)
+Definition mc_handshake (maxpo : N) (self peer : list N) (m : option (list (list N))) : outcome :=
+  run (gids <- from_read m E_ERR ;; for_each (fun _gid => group_touch maxpo self peer) gids).
+
+(** [onNotify] *)
+Definition mc_notify (maxpo : N) (self peer : list N) (m : option (Z * list (list N))) : outcome :=
+  run (msg <- from_read m E_ERR ;;
+       let '(status, gids) := msg in
+       if ((status =? 1) || (status =? 2))%Z then for_each (fun _gid => group_touch maxpo self peer) gids
+       else Ret E_ERR).
+
+(** [onFindGroup]; [served]: the group is known here and yields at least one address (then the
+    reply is written); otherwise [req.Ttl++] (int32) is compared with maxTTL and the request is
+    forwarded; an empty result returns nil without a reply *)
+Definition mc_find_group (max_ttl : Z) (served : bool) (m : option find_group_req) : outcome :=
+  run (req <- from_read m E_ERR ;;
+       if served then Val tt else guard (wrap32 (fg_ttl req + 1) <? max_ttl)%Z E_ERR).
+
+(** [onMulticast]: de-duplication, own messages dropped, delivery and forwarding never fail *)
+Definition mc_multicast (self origin gid : list N) (m : option unit) : outcome :=
+  run (_m <- from_read m E_ERR ;; Val tt).
+
+Section Multicast.
+  Variable fixed : bool.
+  (** [onMessage] + the reader goroutine [notifyMessage] starts for a SendReceive session.
+      [second_frame]: the peer sends a further complete frame on the stream.  The goroutine
+      calls [ReadMsg(nothing)] with [nothing] a nil [proto.Message]: once a frame is read,
+      [proto.Unmarshal(buf, nil)] calls [Reset] on the nil interface *)
+  Definition mc_message (joined subscribed : bool) (m : option group_msg) (second_frame : bool) : outcome :=
+    run (g <- from_read m E_ERR ;;
+         if joined && subscribed then
+           if (gm_type g =? 1)%Z then
+             if second_frame
+             then _target <- deref (if fixed then Some tt else None) ;; Val tt
+             else Val tt
+           else Val tt
+         else Val tt).
+End Multicast.
+
+(** ===================================================================== *)
+(** * routetab  (pkg/routetab/route.go, table.go) *)
+
+Record rt_path := mkRtPath { rp_sign : list N; rp_bodys : list (list N); rp_items : list (list N) }.
+
+(** [Table.SavePath]: paths with fewer than two items are ignored; the next hop is
+    [items[len(items)-1]] *)
+Definition rt_save_path (p : rt_path) : res unit :=
+  let items := rp_items p in
+  if (length items <? 2)%nat then Val tt
+  else _hop <- index items (length items - 1) ;; Val tt.
+
+(** the discard loop of [onRouteReq]: too long, or contains this node: [return nil] *)
+Fixpoint rt_req_scan (max_ttl : nat) (self : list N) (paths : list rt_path) : res unit :=
+  match paths with
+  | [] => Val tt
+  | p :: r =>
+      if (max_ttl <? length (rp_items p))%nat then Ret 0
+      else if member self (rp_items p) then Ret 0
+      else rt_req_scan max_ttl self r
+  end.
+
+(** [onRouteReq]: whatever branch follows (answer, neighbour forward, route forward), the
+    handler returns nil; sends to other peers fail silently *)
+Definition rt_req (max_ttl : nat) (self : list N) (m : option (list N * list rt_path)) : outcome :=
+  run (msg <- from_read m E_ERR ;;
+       let '(_dest, paths) := msg in
+       rt_req_scan max_ttl self paths ;;;
+       for_each rt_save_path paths).
+
+(** [onRouteResp]: over-long paths are filtered out first; nothing left: return nil *)
+Definition rt_resp (max_ttl : nat) (self : list N) (m : option (list N * list rt_path)) : outcome :=
+  run (msg <- from_read m E_ERR ;;
+       let '(_dest, paths) := msg in
+       let now := filter (fun p => (length (rp_items p) <=? max_ttl)%nat) paths in
+       match now with [] => Ret 0 | _ => Val tt end ;;;
+       (if existsb (fun p => member self (rp_items p)) now then Ret 0 else Val tt) ;;;
+       for_each rt_save_path now).
+
+(** [onFindUnderlay]: address-book lookup *)
+Definition rt_underlay (in_book : bool) (m : option (list N)) : outcome :=
+  run (_d <- from_read m E_ERR ;; guard in_book E_ERR).
+
+(** [onRelayConnChain] up to the hand-off; [is_conn]: the target is a connected peer (no route known otherwise) *)
+Definition rt_connchain (self : list N) (is_conn : bool) (m : option (list N * list N)) : outcome :=
+  run (msg <- from_read m E_ERR ;;
+       let '(dest, srcmode) := msg in
+       if bytes_eqb dest self then guard (mode_ok srcmode) E_ERR else guard is_conn E_ERR).
+
+(** [FindUnderlay]: client read of UnderlayResp, [aurora.ParseAddress] (library answer), address-book put *)
+Definition rt_find_underlay (sig_ok : bool) (m : option unit) : outcome :=
+  run (_r <- from_read m E_ERR ;; guard sig_ok E_ERR).
+
+(** ===================================================================== *)
+(** * retrieval  (pkg/retrieval/retrieval.go): handler, and the client read of the relayed Delivery *)
+
+Record req_chunk := mkReqChunk { rq_target : list N; rq_root : list N; rq_chunk : list N }.
+
+(** [has_chunk]: the store has the chunk; [full]: the requesting peer is a full node (its download is
+    reported to chunkinfo); [root_known]: chunkinfo knows the pyramid of [rq_root] (otherwise the report
+    needs the pyramid from the network, which fails here); [deliv]: what the dialled target answered
+    (data, and whether cac/soc validation accepts it for the requested address: library answer) *)
+Definition retrieval_handler (self : list N) (has_chunk full root_known : bool) (m : option req_chunk)
+           (deliv : option (list N * bool)) : outcome :=
+  run (req <- from_read m E_ERR ;;
+       (if has_chunk then Val tt
+        else if bytes_eqb (rq_target req) self then Ret E_ERR
+        else (* RetrieveChunkFromNode -> retrieveChunk *)
+          d <- from_read deliv E_ERR ;;
+          guard (snd d) E_ERR ;;;                     (* cac.Valid || soc.Valid *)
+          guard root_known E_ERR) ;;;                 (* chunkinfo.OnChunkRetrieved; then storer.Put, exists[0] *)
+       (* write Delivery, accounting.Debit *)
+       if full then guard root_known E_ERR else Val tt).   (* chunkinfo.OnChunkTransferred *)
